@@ -1,5 +1,5 @@
 """C10 - Base58Check is lossless and never accepts a string with a wrong checksum."""
-from ..core import attempt, V, R
+from ..core import attempt, V, R, HarnessError
 from ..ref import enc
 
 LEVEL = "exploration"
@@ -76,6 +76,8 @@ def chk_checksummed(s):
     if p != exp[1]:
         return [V(P + ":decode_base58_checksum:valid:wrong-payload", "payload of %r" % s, p.hex(), exp[1].hex())]
     st, q = attempt(h.b58decode_addr, s)
+    if st != "ok" and len(exp[1]) != 21:
+        return []          # not an address payload (version byte + 20-byte hash): the address helper may refuse it
     if st != "ok" or q != exp[1][1:]:
         return [V(P + ":b58decode_addr:valid:wrong-payload", "b58decode_addr(%r)" % s, q.hex() if st == "ok" else q,
                   exp[1][1:].hex())]
@@ -83,6 +85,47 @@ def chk_checksummed(s):
 
 
 FOREIGN = "0OIl -_+/=\u00e9"
+
+
+def consumers(kind):
+    """every public entry point that takes a Base58Check string of this kind"""
+    from btc_hd_wallet.base_wallet import BaseWallet
+    from btc_hd_wallet.paper_wallet import PaperWallet
+    from btc_hd_wallet.bip32 import PrvKeyNode, PubKeyNode
+    from btc_hd_wallet.bip85 import BIP85DeterministicEntropy
+    from btc_hd_wallet.keys import PrivateKey
+    h = _impl()
+    if kind == "xprv":
+        return {"BaseWallet.from_extended_key": BaseWallet.from_extended_key, "PaperWallet.from_extended_key": PaperWallet.from_extended_key,
+                "PrvKeyNode.parse": PrvKeyNode.parse, "BIP85.from_xprv": BIP85DeterministicEntropy.from_xprv,
+                "decode_base58_checksum": h.decode_base58_checksum}
+    if kind == "xpub":
+        return {"BaseWallet.from_extended_key": BaseWallet.from_extended_key, "PaperWallet.from_extended_key": PaperWallet.from_extended_key,
+                "PubKeyNode.parse": PubKeyNode.parse, "decode_base58_checksum": h.decode_base58_checksum}
+    if kind == "wif":
+        return {"PrivateKey.from_wif": PrivateKey.from_wif, "decode_base58_checksum": h.decode_base58_checksum}
+    return {"b58decode_addr": h.b58decode_addr, "decode_base58_checksum": h.decode_base58_checksum}
+
+
+def chk_consumer(kind, good, bad):
+    """`good` carries a valid checksum, `bad` does not (classified by the reference): every consumer takes good, refuses bad"""
+    try:
+        enc.b58check_decode(bad)
+        return "skipped-mutant-valid", []
+    except ValueError:
+        pass
+    enc.b58check_decode(good)
+    viols = []
+    for name, f in consumers(kind).items():
+        st, v = attempt(f, good)
+        if st != "ok":
+            viols.append(V("%s:%s:valid-%s:refused" % (P, name, kind), "%s refused the valid string %r: %s" % (name, good, v)))
+            continue
+        st, v = attempt(f, bad)
+        if st == "ok":
+            viols.append(V("%s:%s:bad-checksum:accepted" % (P, name), "%s(%r) accepted a %s whose checksum is wrong (valid neighbour: %r)" % (
+                name, bad, kind, good), repr(v)[:80], "an exception"))
+    return "consumers-refuse", viols
 
 
 def crafted(c, d, pos, plen):
@@ -190,6 +233,18 @@ def execute(case):
             if st != "ok" or e != s:
                 vs.append(V(P + ":encode_base58_checksum:wrong-string", "payload " + d.hex(), e, s))
             acc(vs, {"k": "chk", "s": s})
+    elif k == "valid":
+        d = bytes.fromhex(case["payload"])
+        s = enc.b58check_encode(d)
+        vs = chk_checksummed(s) + chk_bytes(d + enc.hash256(d)[:4])
+        st, e = attempt(_impl().encode_base58_checksum, d)
+        if st != "ok" or e != s:
+            vs.append(V(P + ":encode_base58_checksum:wrong-string", "payload " + d.hex(), e, s))
+        acc(vs, case)
+    elif k == "consumer":
+        o, vs = chk_consumer(case["kind"], case["good"], case["bad"])
+        LAST[0] = o
+        acc(vs, case)
     elif k == "mut_block":
         s = enc.b58check_encode(bytes.fromhex(case["payload"]))
         for m in mutants_at(s, case["pos"]):
@@ -273,6 +328,53 @@ def run(ctx):
     ctx.product("inner-zero-runs", cases, execute)
     from ..bfs import eviction_probe, PureCalls
     eviction_probe(ctx, "codec-revisits", PureCalls(10**6, _ev_judge, P), lambda i: i)
+    # corner classes of the computed intermediates (vf/corners.py): checksum bytes (every position 00/ff, every first/last
+    # value) and the Base58 digits of the encoded string (digit 0 at every inner position) for 21- and 34-byte payloads
+    from .. import corners
+    for ver, plen, slen in ((b"\x05", 20, 34), (b"\x80", 33, 52)):
+        def cands():
+            i = 0
+            while True:
+                d = ver + (enc.sha256(b"C10-corner-%d-%d" % (ctx.seed, i)) + enc.sha256(b"x%d" % i))[:plen]
+                ck = enc.hash256(d)[:4]
+                sd = enc.b58encode(d + ck)
+                i += 1
+                if len(sd) != slen:
+                    continue
+                yield d, {"ck": ck, "dg": bytes(A.index(c) for c in sd)}
+        imp = [("f", "dg", j) for j in range(slen)] + [("z", "dg", 0)] + [(w, "dg", c) for w in ("first", "last") for c in range(256)]
+        imp = [t for t in imp if not (t[0] == "last" and t[2] < 58)]
+        # plus: two consecutive zero digits ("11") starting at every inner position (radix conversion by digit groups)
+        kept, st = corners.cover(cands(), {"ck": 4, "dg": slen}, 400000, pairs=False, impossible=imp, extra=[corners.zero_runs("dg", slen, 2, 2)])
+        ctx.extra["intermediate_corner_classes_%d" % slen] = st
+        if st["covered"] != st["classes"]:
+            raise HarnessError("corner cover incomplete: %r" % (st,))
+        ctx.product("intermediate-corners-%d" % slen, [{"k": "valid", "payload": d.hex()} for d, _ in kept], execute, chunk=16)
+    # every consumer of Base58Check strings (wallet constructors, node parsers, BIP85, WIF import, address helper): a string
+    # one edit away from a valid one, or with zeroed / off-by-one checksum bytes, must be refused by each of them
+    from ..ref import hd, secp
+    rr = ctx.rng("consumers")
+    node = hd.Node(rr.randrange(1, secp.N), None, bytes(rr.randrange(256) for _ in range(32)), 0, 0, b"\x00" * 4)
+    node = hd.node_from_priv(node.k, node.chain, 0, 0, b"\x00" * 4)
+    pv = sorted(v for v in hd.SLIP132 if hd.SLIP132[v][1] == "prv")
+    uv = sorted(v for v in hd.SLIP132 if hd.SLIP132[v][1] == "pub")
+    goods = [("xprv", hd.xprv(node, v)) for v in (pv if ctx.thorough else pv[::2])] + [("xpub", hd.xpub(node, v)) for v in (uv if ctx.thorough else uv[1::2])]
+    goods += [("wif", hd.wif(node.k, c, t)) for c in (True, False) for t in (False, True)]
+    goods += [("addr", enc.b58check_encode(bytes([ver]) + enc.hash160(b"C10-%d" % ver))) for ver in (0x00, 0x05, 0x6f, 0xc4)]
+    cases = []
+    for kind, g in goods:
+        raw = enc.b58decode(g)
+        bads = [enc.b58encode(raw[:-4] + b"\x00" * 4), enc.b58encode(raw[:-1] + bytes([(raw[-1] + 1) % 256])),
+                enc.b58encode(raw[:-4] + bytes([raw[-4] ^ 0x80]) + raw[-3:]), enc.b58encode(raw[:-4] + enc.sha256(raw[:-4])[:4])]
+        for pos in sorted({len(g) - 1, len(g) - 2, len(g) // 2, 5, 1}):
+            for d in (1, 29):
+                bads.append(g[:pos] + A[(A.index(g[pos]) + d) % 58] + g[pos + 1:])
+        for pos in (len(g) - 2, len(g) // 2):
+            if g[pos] != g[pos + 1]:
+                bads.append(g[:pos] + g[pos + 1] + g[pos] + g[pos + 2:])
+        bads += [g[:-1], g + "1", g[:len(g) // 2] + g[len(g) // 2 + 1:]]
+        cases += [{"k": "consumer", "kind": kind, "good": g, "bad": b} for b in bads if b != g]
+    ctx.product("consumers-x-bad-checksums", cases, execute, chunk=4)
     # strings shorter than a checksum / empty / only look-alikes
     cases = [{"k": "chk", "s": s} for s in ["", "1", "11", "111", "1111", "11111", "0", "O", "I", "l", " ", "3yQ", "3yQ "]]
     ctx.product("short-and-foreign", cases, execute, parallel=False)
